@@ -21,7 +21,7 @@ from vmon.util import derive_rng, shash
 
 LEVEL = "exploration"
 MANIFEST = {
-    "text": "Seeded random programs (biased to plans with state outside operands: set_index/sort_values quantile divisions, repartition by size, parquet dataset info) are pickled in four forms (as built, simplified, optimize(), lower_completely()) from sources {from_pandas, from_map, from_delayed, parquet with both readers, persisted}; each pickle is loaded by a fresh receiver interpreter with empty caches, which compares name, declared schema, divisions, npartitions and the computed result with the originating process's own observations.",
+    "text": "Seeded random programs (biased to plans with state outside operands: set_index/sort_values quantile divisions, repartition by size, parquet dataset info) are pickled in four forms (as built, simplified, optimize(), lower_completely()) from sources {from_pandas, from_map, from_delayed, parquet with both readers, persisted}; each pickle is loaded by a fresh receiver interpreter with empty caches, which compares name, declared schema, divisions, npartitions and the computed result with the originating process's own observations. Scripted sources whose unsorted index from_pandas itself sorts are included.",
     "note": "One receiver process per pickle (about 1.5 s each). Functions referenced by the workload (map_partitions helpers) are importable in the receiver, as user code would be. Sampled programs.",
     "technique": "runtime monitoring: cross-process differential observation (origin vs fresh receiver) of pickled collections",
     "design_ref": "DESIGN.md section 4, C16",
